@@ -27,6 +27,12 @@ Clauses(r) ==
     <<"AtLeastGenerating.fit", MomentEstimator(r.fam) \/ GE(r.ll1, r.llg)>>,
     <<"AtLeastGenerating.scaled", MomentEstimator(r.fam) \/ (Sc(r) => GE(r.ll2, r.llgc))>>,
     <<"AtLeastGenerating.refit", MomentEstimator(r.fam) \/ GE(r.ll3, r.llg)>>,
+    \* the fit of ANOTHER instance of the family whose parameter kfix is fixed AWAY from the generating value
+    \* (fixval = UserStart: scale x1.5, shape x0.8, location /2, log-scale +0.2): the constrained maximum.
+    \* fx_ll0 / fx_ll = log-likelihood at its start / after the fit, fx_pert = the best log-likelihood with one
+    \* free parameter moved by +-2 % (a maximiser within optimiser tolerance beats its neighbours).
+    <<"NoLikelihoodLoss.fixed", FixedJudged(r.fam, r.kfix) => r.fx_fin /\ GE(r.fx_ll, r.fx_ll0)>>,
+    <<"LocallyOptimal.fixed", FixedJudged(r.fam, r.kfix) => r.fx_fin /\ GE(r.fx_ll, r.fx_pert)>>,
     <<"MomentsMatch", MomentEstimator(r.fam) =>
                            (/\ MomentsOk(r.p1, r.mean1, r.std1)
                             /\ MomentsOk(r.p2, r.mean2, r.std2)
